@@ -217,8 +217,11 @@ def run(tier, seed, replay=None):
                     return any(type(a) is type(x) and contained(a, x) is None and
                                all(y in RUST_ZERO for _, y in added_members(a, x)) for a in dflts)
                 try:
+                    # (nulls written for Box<Option<T>> members elsewhere in w are the other recorded mechanism, KF-C03-2:
+                    # they are taken out as well before asking whether the rest is valid)
+                    nulls = {p_ for p_ in null_positions(w, boxed) if not present(v, p_)} if boxed else set()
                     if adds and all(rust_filled(x) for _, x in adds) and \
-                            orc.valid(without(w, {p_ for p_, _ in adds}), meta["def"]):
+                            orc.valid(without(w, {p_ for p_, _ in adds} | nulls), meta["def"]):
                         cause = "nested_declared_default_replaced_by_rust_default"
                 except Exception:
                     pass
